@@ -18,6 +18,7 @@ from decimal import Decimal
 import common
 from common import sx, ok
 from units import BLOCK
+from props import c19_stv
 
 ID = 'C19'
 LEVEL = 'proof'
@@ -1542,6 +1543,7 @@ DIFF = {
                 known_class=blt_known),
     'blt-tokens': dict(model_line=token_model_line, impl=token_impl, canon=token_canon, nontrivial=lambda c: True, spec=token_spec),
 }
+DIFF.update(c19_stv.DIFF)      # 'stv-model', 'stv-lines': Model/StvFile.v against votelib.io.stv
 
 
 def run_cases(ctx, name, stream, cases, limit=5):
@@ -1579,6 +1581,14 @@ def explore(ctx, widen=1):
               + list(blt_cases(ctx.rng, n(60, 600), special='empty-ranking')) + list(blt_cases(ctx.rng, n(60, 600), special='long-decimal')))
     run_cases(ctx, 'blt-hostile-names', 'blt', blt_cases(ctx.rng, n(100, 1500), hostile=True))
     run_cases(ctx, 'blt-tokens', 'blt-tokens', token_cases(ctx.rng, n(4000, 40000) * widen))
+    c19_stv.check_tables(ctx)
+    run_cases(ctx, 'stv-model', 'stv-model', c19_stv.model_cases(ctx.rng, gen_election, n(1500, 15000) * widen))
+    run_cases(ctx, 'stv-model-boundary', 'stv-model',
+              [c for sp, k in (('many', n(12, 80)), ('dec-exponent', n(40, 400)), ('empty-ranking', n(40, 400)), ('long-decimal', n(40, 400)),
+                               ('zero-weight', n(40, 400)), ('negative', n(40, 400)), ('unit-weights', n(60, 600)), ('ordinal', n(60, 600)))
+               for c in c19_stv.model_cases(ctx.rng, gen_election, k, special=sp)]
+              + list(c19_stv.model_cases(ctx.rng, gen_election, n(80, 800), hostile=True)))
+    run_cases(ctx, 'stv-lines', 'stv-lines', c19_stv.lines_cases(ctx.rng, gen_election, n(5000, 50000) * widen))
     stv_stream(ctx, n(1500, 15000) * widen)
     stv_stream(ctx, n(40, 400), special='many')
     stv_stream(ctx, n(40, 400), special='dec-exponent')
